@@ -55,17 +55,22 @@ fn fuse_tokens_sized<S: Source, const NA: usize, const NB: usize>(s: &mut S) {
     let (b, lb) = any_token::<S, NB>(s);
     let (a, b) = (&a[..la], &b[..lb]);
     s.assume(may_follow(a, b));
-    let separated = utils::should_break_with_space(a[la - 1] as char, b[0] as char);
+    // the token-based generator consults `should_break_with_space` for every token and, right
+    // after a number literal (`write_number`), `should_break_after_number` as well
+    let character_rule = utils::should_break_with_space(a[la - 1] as char, b[0] as char);
+    let separated = character_rule
+        || (classify(a) == TokenClass::Number
+            && utils::should_break_after_number(a[la - 1] as char, b[0] as char));
     let (text, n) = concat(a, b);
     let read_back = munch(&text[..n]);
-    note!(s, "tokens {:?} then {:?}: should_break_with_space={} ; lexer reads {} byte(s) of {:?} as the first token",
+    note!(s, "tokens {:?} then {:?}: separator written={} ; lexer reads {} byte(s) of {:?} as the first token",
         String::from_utf8_lossy(a), String::from_utf8_lossy(b), separated, read_back, String::from_utf8_lossy(&text[..n]));
     observe!(separated, "a separator is requested");
     observe!(!separated && classify(a) == TokenClass::Number, "number followed directly by a token");
     observe!(!separated && classify(b) == TokenClass::Str, "token followed directly by a string");
     let open_ended_number =
         classify(a) == TokenClass::Number && (a[la - 1] == b'.' || a[la - 1] == b'_');
-    observe!(open_ended_number && !separated, "number literal ending in `.` or `_` followed directly by a token");
+    observe!(open_ended_number && separated && !character_rule, "number literal ending in `.` or `_` separated by the number rule");
     if open_ended_number {
         claim!(s, separated || read_back == la, "a number literal spelled with a trailing `.` or `_` is read back as written when the next token follows without separator");
     } else {
